@@ -29,10 +29,14 @@ type footprint struct {
 }
 
 func (env *Env) footprintOf(c *Contract) (*footprint, error) {
+	return env.footprintOfTargets(c.Modifies)
+}
+
+func (env *Env) footprintOfTargets(mods []Expr) (*footprint, error) {
 	e := env.e
 	fp := &footprint{whole: map[string]bool{}, idx: map[string][]string{}}
 	add := func(k, i string) { fp.idx[k] = append(fp.idx[k], i) }
-	for _, m := range c.Modifies {
+	for _, m := range mods {
 		switch x := m.(type) {
 		case *EIdent:
 			if x.Name == "everything" {
@@ -285,7 +289,7 @@ func verifyFunction(P *Program, db *SpecDB, ti *TypeInfo, fn *ssa.Function, c *C
 			if err != nil {
 				e.unsupportedf("modifies: %v", err)
 			} else if !fp.all {
-				e.frameObligations(fr, final, fp, c)
+				e.frameObligations(e.writeLog, fr.entry, final, fp, "frame:", "modifies "+strings.Join(c.ModSrc, ", "), final.reach)
 			}
 		}
 	} else {
@@ -351,9 +355,9 @@ func resultTypeOfSig(sig *types.Signature) types.Type {
 
 // frameObligations: every heap component written by the function is unchanged outside the declared footprint
 // (objects allocated during the call are exempt).
-func (e *Enc) frameObligations(fr *Frame, final *State, fp *footprint, c *Contract) {
-	keys := make([]string, 0, len(e.writeLog))
-	for k := range e.writeLog {
+func (e *Enc) frameObligations(written map[string]bool, entry *State, final *State, fp *footprint, prefix, what, reach string) {
+	keys := make([]string, 0, len(written))
+	for k := range written {
 		keys = append(keys, k)
 	}
 	sort.Strings(keys)
@@ -365,7 +369,7 @@ func (e *Enc) frameObligations(fr *Frame, final *State, fp *footprint, c *Contra
 		if !ok {
 			continue
 		}
-		entryT := e.heapGet(fr.entry, k, srt)
+		entryT := e.heapGet(entry, k, srt)
 		exitT, ok := final.heap[k]
 		if !ok || exitT == entryT {
 			continue
@@ -384,9 +388,9 @@ func (e *Enc) frameObligations(fr *Frame, final *State, fp *footprint, c *Contra
 			}
 		}
 		if refIndexed {
-			conds = append(conds, "(<= "+sk+" alloc@0)")
+			conds = append(conds, "(<= "+sk+" "+entry.alloc+")")
 		}
 		goal := implies(and(conds...), eq("(select "+exitT+" "+sk+")", "(select "+entryT+" "+sk+")"))
-		e.addObl(&Obligation{Name: "frame:" + k, Kind: "frame", Label: "", Clause: "modifies " + strings.Join(c.ModSrc, ", ") + " — " + k + " unchanged elsewhere", Reach: final.reach, Goal: goal})
+		e.addObl(&Obligation{Name: prefix + k, Kind: "frame", Label: "", Clause: what + " — " + k + " unchanged elsewhere", Reach: reach, Goal: goal})
 	}
 }
